@@ -68,7 +68,9 @@ fn build_structure(exec: &Execution, image: &Image) -> BTreeMap<PathBuf, Vec<(us
                 let payload = if classify(&path) == PathClass::Wal { "log-payload" } else { "manifest-record" };
                 for (s, e) in ws {
                     if e - s >= 7 {
-                        spans.push((s, s + 7, "log-header"));
+                        spans.push((s, s + 4, "log-header-checksum"));
+                        spans.push((s + 4, s + 6, "log-header-length"));
+                        spans.push((s + 6, s + 7, "log-header-type"));
                         spans.push((s + 7, e, payload));
                     } else {
                         spans.push((s, e, "log-trailer-padding"));
@@ -470,9 +472,6 @@ pub fn run_case(tier: &str, seed: u64, idx: u64) -> CaseOut {
                 out.nontrivial(format!("{}/{}/{}", class.name(), structure, outcome));
             }
             out.set_add("structures_hit", format!("{}/{}", class.name(), structure));
-            if out.violations.len() >= 8 {
-                break;
-            }
         }
     }
     out.add("mutated_images", images);
